@@ -727,3 +727,60 @@ def post_c18_suffix(case, st):
             out.append(v)
             break
     return out
+
+
+# ---------------------------------------------------------------------------------------------
+# C04 print/parse round trip
+
+
+def roundtrip(text):
+    """returns None when the round trip holds, else (direction, detail, what)"""
+    import io
+
+    ns = seams.load()
+    o1 = seams.run_parse(text, keep_parser=True)
+    if o1.verdict != "ACC" or o1.tree is None:
+        return None
+    p1 = o1.parser
+    buf = io.StringIO()
+    try:
+        with seams.watchdog():
+            for c in p1.result:
+                c.tosieve(target=buf)
+    except seams.Hang:
+        return ("print-hang", None, "tosieve() does not terminate")
+    except Exception as e:  # noqa
+        return ("print-exception", type(e).__name__, "tosieve() raised %s: %s" % (type(e).__name__, str(e)[:100]))
+    t2 = buf.getvalue()
+    o2 = seams.run_parse(t2, keep_parser=True)
+    if o2.verdict != "ACC":
+        return ("reparse-rejected", None, "serialised text %r is not accepted: %s" % (t2[:200], o2.brief()))
+    if o2.tree != o1.tree:
+        return ("tree-changed", _first_diff(o1.tree, o2.tree), "tree after re-parsing %r differs" % (t2[:200],))
+    buf2 = io.StringIO()
+    try:
+        for c in o2.parser.result:
+            c.tosieve(target=buf2)
+    except Exception as e:  # noqa
+        return ("print-exception", type(e).__name__, "second tosieve() raised %s" % type(e).__name__)
+    if buf2.getvalue() != t2:
+        return ("not-fixed-point", None, "second serialisation differs: %r vs %r" % (buf2.getvalue()[:120], t2[:120]))
+    return None
+
+
+def post_c04(case, st):
+    if case.obs.verdict != "ACC":
+        return []
+    st.executions += 2
+    r = roundtrip(case.text)
+    if r is None:
+        return []
+    direction, detail, what = r
+    owner = detail if direction == "tree-changed" else None
+    if owner is None:
+        last = None
+        for t in case.toks:
+            if t.kind == "id":
+                last = t.text.decode("ascii", "replace").lower()
+        owner = last
+    return [viol("C04", direction, case, "ROUNDTRIP", owner, detail if direction != "tree-changed" else None, None, what)]
